@@ -590,3 +590,422 @@ class C15(SimSpec):
 
 
 register(C15)
+
+
+# ========================================================================================= C16
+
+def physical_config(f, vals):
+    """a configuration in SECONDS whose times are whole multiples of f"""
+    inst = {'telescope': {
+        'total_arrays': vals['arrays'], 'max_ingest_resources': vals['max_ingest'],
+        'pipelines': {o['name']: {'workflow': 'wf.json', 'ingest_demand': o['ingest']} for o in vals['obs']},
+        'observations': [{'name': o['name'], 'start': o['a'] * f, 'duration': o['b'] * f,
+                          'instrument_demand': o['demand'], 'data_product_rate': o['rate']} for o in vals['obs']]}}
+    cluster = {'header': {}, 'system': {'resources': {f"m{i}": {'flops': c, 'compute_bandwidth': b}
+                                                        for i, (c, b) in enumerate(vals['machines'])},
+                                        'system_bandwidth': vals['sysbw']}}
+    buffer = {'hot': {'capacity': vals['hot_cap'], 'max_ingest_rate': vals['hot_rate']},
+              'cold': {'capacity': vals['cold_cap'], 'max_data_rate': vals['cold_rate']}}
+    return inst, cluster, buffer
+
+
+def parse_all(unit, inst, cluster, buffer):
+    cfg = make_config(unit, cluster=json.loads(json.dumps(cluster)), buffer=json.loads(json.dumps(buffer)),
+                      instrument=json.loads(json.dumps(inst)))
+    machines, sysbw = cfg.parse_cluster_config()
+    arrays, pipelines, obs, max_ingest = cfg.parse_instrument_config('telescope')
+    hot, cold = cfg.parse_buffer_config()
+    return {
+        'machines': [(m.id, m.cpu, m.bandwidth) for m in machines], 'sysbw': sysbw,
+        'arrays': arrays, 'max_ingest': max_ingest,
+        'pipelines': {k: v['ingest_demand'] for k, v in pipelines.items()},
+        'obs': [(o.name, o.est, o.duration, o.demand, o.ingest_data_rate) for o in obs],
+        'hot': (hot[0].total_capacity, hot[0].max_ingest_data_rate),
+        'cold': (cold[0].total_capacity, cold[0].max_data_rate)}
+
+
+def c16_violations(unit, vals):
+    from .scenario import unit_factor
+    f = unit_factor(unit)
+    inst, cluster, buffer = physical_config(f, vals)
+    out = []
+    try:
+        S = parse_all('seconds', inst, cluster, buffer)
+        U = parse_all(unit, inst, cluster, buffer)
+    except Exception as e:
+        from .trace import harness_frame_innermost, repo_frame
+        if harness_frame_innermost(e):
+            raise
+        return [O.V('C16', 'parse_raised', f"unit {unit!r}: {type(e).__name__}@{repo_frame(e)}: {e}")]
+
+    def bad(part, msg):
+        out.append(O.V('C16', part, f"unit {unit!r} (factor {f}): {msg}"))
+    for (n1, st1, d1, dem1, r1), (n2, st2, d2, dem2, r2) in zip(S['obs'], U['obs']):
+        if st2 * f != st1:
+            bad('start', f"{n1}: start {st2} x {f} != {st1}")
+        if d2 * f != d1:
+            bad('duration', f"{n1}: duration {d2} x {f} != {d1}")
+        if r2 != r1 * f:
+            bad('obs_rate', f"{n1}: rate {r2} != {r1} x {f}")
+        if dem1 != dem2:
+            bad('demand', f"{n1}: instrument demand changed {dem1} -> {dem2}")
+        if r2 * d2 != r1 * d1:
+            bad('volume', f"{n1}: data volume {r2 * d2} != {r1 * d1}")
+        if (r2 > U['hot'][1]) != (r1 > S['hot'][1]):
+            bad('rate_limit_comparison', f"{n1}: rate {r2} vs limit {U['hot'][1]} compares differently from {r1} vs {S['hot'][1]}")
+    for (i1, c1, b1), (i2, c2, b2) in zip(S['machines'], U['machines']):
+        if c2 != c1 * f:
+            bad('speed', f"{i1}: cpu {c2} != {c1} x {f}")
+        if b2 != b1 * f:
+            bad('bandwidth', f"{i1}: bandwidth {b2} != {b1} x {f}")
+        comp = vals['k'] * c1 * f
+        if (comp // c2) * f != comp // c1:
+            bad('runtime_seconds', f"{i1}: runtime of {comp} is {(comp // c2) * f}s vs {comp // c1}s")
+    if U['sysbw'] != S['sysbw'] * f:
+        bad('system_bandwidth', f"{U['sysbw']} != {S['sysbw']} x {f}")
+    if U['hot'][1] != S['hot'][1] * f:
+        bad('hot_rate', f"{U['hot'][1]} != {S['hot'][1]} x {f}")
+    if U['cold'][1] != S['cold'][1] * f:
+        bad('cold_rate', f"{U['cold'][1]} != {S['cold'][1]} x {f}")
+    for k in ('arrays', 'max_ingest', 'pipelines'):
+        if U[k] != S[k]:
+            bad('count_scaled', f"{k} changed {S[k]} -> {U[k]}")
+    if U['hot'][0] != S['hot'][0] or U['cold'][0] != S['cold'][0]:
+        bad('capacity_scaled', f"capacities changed {S['hot'][0]},{S['cold'][0]} -> {U['hot'][0]},{U['cold'][0]}")
+    if isinstance(unit, str) and unit != 'seconds':
+        try:
+            N = parse_all(f, inst, cluster, buffer)
+            if N != U:
+                bad('spelling', f"{unit!r} parses differently from the custom factor {f}")
+        except Exception as e:
+            bad('spelling', f"custom factor {f} raised {type(e).__name__}")
+    return out
+
+
+@st.composite
+def c16_vals(draw):
+    nobs = draw(st.integers(1, 3))
+    return {
+        'arrays': draw(st.integers(1, 64)), 'max_ingest': draw(st.integers(1, 8)),
+        'obs': [{'name': f"o{i}", 'a': draw(st.integers(0, 50)), 'b': draw(st.integers(1, 20)),
+                 'demand': draw(st.integers(1, 64)), 'rate': draw(st.integers(1, 40)),
+                 'ingest': draw(st.integers(1, 8))} for i in range(nobs)],
+        'machines': [(draw(st.integers(1, 100)), draw(st.integers(1, 50))) for _ in range(draw(st.integers(1, 3)))],
+        'sysbw': draw(st.integers(1, 10)),
+        'hot_cap': draw(st.integers(1, 10 ** 6)), 'hot_rate': draw(st.integers(1, 60)),
+        'cold_cap': draw(st.integers(1, 10 ** 6)), 'cold_rate': draw(st.integers(1, 60)),
+        'k': draw(st.integers(0, 9))}
+
+
+FIXED_VALS = [
+    {'arrays': 36, 'max_ingest': 5, 'obs': [{'name': 'emu', 'a': 0, 'b': 10, 'demand': 36, 'rate': 4, 'ingest': 5},
+                                            {'name': 'dingo', 'a': 10, 'b': 15, 'demand': 18, 'rate': 3, 'ingest': 2}],
+     'machines': [(84, 10), (84, 10), (50, 7)], 'sysbw': 1, 'hot_cap': 500, 'hot_rate': 5, 'cold_cap': 250, 'cold_rate': 2, 'k': 3},
+    {'arrays': 1, 'max_ingest': 1, 'obs': [{'name': 'a', 'a': 7, 'b': 1, 'demand': 1, 'rate': 40, 'ingest': 1}],
+     'machines': [(1, 1)], 'sysbw': 3, 'hot_cap': 41, 'hot_rate': 39, 'cold_cap': 40, 'cold_rate': 60, 'k': 0},
+]
+
+
+class C16:
+    prop = 'C16'
+    cases = {'quick': 4000, 'thorough': 8000}
+    technique = "metamorphic property-based testing of Config.parse_* (same physical configuration, different unit) + exhaustive unit sweep"
+    rule = ("a physical configuration in seconds whose start/duration values are whole multiples of the unit factor is parsed with unit "
+            "'seconds' and with unit u in {'seconds','minutes','hours', ints}; quick: Hypothesis draws configuration and unit; thorough "
+            "additionally enumerates ALL units {'seconds','minutes','hours'} + 1..7200 on two fixed configurations; non-trivial = unit "
+            "factor > 1; distinct = distinct (unit, configuration) JSON")
+    level_text = ("exploration (unit sweep exhaustive in thorough): starts/durations x f and rates/limits/speeds/bandwidths / f equal the "
+                  "seconds parse in all three sections; 'minutes' == 60, 'hours' == 3600; volumes, rate-limit comparisons and floor(comp/speed)*f "
+                  "runtimes unit-independent; capacities, counts and demands unscaled")
+    assumptions = ["Config objects are built without a file (Config.__new__ + attributes); Config.__init__'s file reading is covered by the repository's own tests"]
+
+    def body(self, case, state):
+        unit, vals = case
+        from .scenario import unit_factor
+        state.evaluations += 1
+        out = c16_violations(unit, vals)
+        f = unit_factor(unit)
+        state.count('unit_string' if isinstance(unit, str) else 'unit_int')
+        if f > 1:
+            state.nontrivial.add(case_hash([str(unit), vals]))
+            state.sample({'unit': unit, 'config': vals})
+        for v in out:
+            v['sig'] = v['part']
+        return state.split_known(out)
+
+    def replay_case(self, case, state):
+        return self.body(case, state)
+
+    def run_shard(self, state, tier, seed, shard, nshards, cases=None):
+        units = st.one_of(st.sampled_from(['seconds', 'minutes', 'hours']), st.integers(1, 7200),
+                          st.sampled_from([1, 2, 59, 60, 61, 3599, 3600, 3601]))
+        run_given(state, st.tuples(units, c16_vals()).map(list), self.body,
+                  max(1, (cases or self.cases[tier]) // nshards), shard_seed(seed, self.prop, shard))
+        if state.failures or tier != 'thorough':
+            return
+        all_units = ['seconds', 'minutes', 'hours'] + list(range(1, 7201))
+        n = 0
+        for i, (u, vals) in enumerate(itertools.product(all_units, FIXED_VALS)):
+            if i % nshards != shard:
+                continue
+            n += 1
+            bad = self.body([u, vals], state)
+            if bad:
+                state.failures.append(([u, vals], bad))
+                break
+        state.extra['unit_sweep_cases'] = n
+        state.extra['exhaustive_part'] = "all units {'seconds','minutes','hours'} + 1..7200 on 2 fixed configurations"
+
+
+register(C16)
+
+
+# ========================================================================================= C18
+
+class TierObs:
+    def __init__(self, name, size):
+        self.name = name
+        self.total_data_size = size
+        self.buffer_id = 0
+
+
+class TierModel:
+    """op histories on a real Buffer: ['store', size] ['h2c'] ['c2h'] ['step', k]"""
+
+    def __init__(self, hot_cap, cold_cap, hot_rate, cold_rate):
+        import simpy
+        from topsim.core.buffer import Buffer
+        self.env = simpy.Environment()
+        cfg = make_config('seconds', buffer={'hot': {'capacity': hot_cap, 'max_ingest_rate': hot_rate},
+                                             'cold': {'capacity': cold_cap, 'max_data_rate': cold_rate}})
+        self.buf = Buffer(self.env, None, None, cfg)
+        self.hot, self.cold = self.buf.hot[0], self.buf.cold[0]
+        self.rate = min(hot_rate, cold_rate)
+        self.total = hot_cap + cold_cap        # hot free + cold free + data stored == constant
+        self.data = 0
+        self.where = {}                        # obs name -> 'hot' | 'cold'
+        self.objs = {}
+        self.move = None
+        self.k = 0
+        self.classes = {}
+        self.ops = []
+        self.dead = False
+        self.last = (self.hot.current_capacity, self.cold.current_capacity)
+
+    def count(self, k):
+        self.classes[k] = self.classes.get(k, 0) + 1
+
+    def _settle(self):
+        while self.env.peek() == self.env.now:
+            self.env.step()
+
+    def names(self, tier):
+        return [o.name for o in tier.observations['stored']]
+
+    def observe(self, out, op, advanced=False):
+        h, c = self.hot.current_capacity, self.cold.current_capacity
+        if h + c + self.data != self.total:
+            out.append(O.V('C18', 'not_conserved', f"after {op}: hot free {h} + cold free {c} + stored data {self.data} != {self.total}"))
+        if h < 0 or c < 0 or h > self.hot.total_capacity or c > self.cold.total_capacity:
+            out.append(O.V('C18', 'free_out_of_range', f"after {op}: hot free {h}, cold free {c}"))
+        mv = self.move
+        if mv is not None:
+            dh, dc = h - self.last[0], c - self.last[1]
+            if mv['dir'] == 'h2c':
+                moved, other = dh, -dc
+            else:
+                moved, other = dc, -dh
+            if moved != other:
+                out.append(O.V('C18', 'step_not_conserved', f"after {op}: {mv['dir']} of {mv['name']}: source freed {moved}, destination took {other}"))
+            if moved:
+                want = min(self.rate, mv['left'])
+                mv['steps'] += 1
+                if moved != want:
+                    out.append(O.V('C18', 'wrong_rate', f"after {op}: {mv['dir']} of {mv['name']} moved {moved} in one step, expected min(hot rate, cold rate, remaining) = {want}"))
+                mv['left'] -= moved
+            elif mv['left'] > 0 and advanced:
+                out.append(O.V('C18', 'stalled', f"after {op}: {mv['dir']} of {mv['name']} moved nothing with {mv['left']} left"))
+            if mv['left'] <= 0 or not mv['proc'].is_alive:
+                if mv['left'] == 0 and not mv.get('data_done'):
+                    mv['data_done'] = True
+                    want_steps = math.ceil(mv['size'] / self.rate)
+                    if mv['steps'] != want_steps:
+                        out.append(O.V('C18', 'wrong_duration', f"{mv['dir']} of {mv['name']} ({mv['size']} units at rate {self.rate}) took {mv['steps']} transfer steps, expected {want_steps}"))
+                    dst, src = (self.cold, self.hot) if mv['dir'] == 'h2c' else (self.hot, self.cold)
+                    self.where[mv['name']] = 'cold' if mv['dir'] == 'h2c' else 'hot'
+                    if mv['name'] not in self.names(dst) or mv['name'] in self.names(src):
+                        out.append(O.V('C18', 'wrong_tier', f"after {mv['dir']} {mv['name']} is stored in hot {self.names(self.hot)} / cold {self.names(self.cold)}"))
+                    if self.hot.observations['transfer'] is not None or self.cold.observations['transfer'] is not None:
+                        out.append(O.V('C18', 'transfer_slot', f"transfer slots not cleared after the move: hot {self.hot.observations['transfer']} cold {self.cold.observations['transfer']}"))
+                if not mv['proc'].is_alive:
+                    if mv['left'] != 0:
+                        out.append(O.V('C18', 'ended_early', f"{mv['dir']} of {mv['name']} ended with {mv['left']} not transferred"))
+                    self.move = None
+                    self.count('move_completed')
+        self.check_where(out, op)
+        self.last = (h, c)
+
+    def check_where(self, out, op):
+        if self.move is not None and not self.move.get('data_done'):
+            return
+        hot_n, cold_n = self.names(self.hot), self.names(self.cold)
+        for name, tier in self.where.items():
+            in_hot, in_cold = hot_n.count(name), cold_n.count(name)
+            if (in_hot, in_cold) != ((1, 0) if tier == 'hot' else (0, 1)):
+                out.append(O.V('C18', 'stored_lists', f"after {op}: {name} should be stored in {tier} only: hot {hot_n} cold {cold_n}"))
+
+    def apply(self, op):
+        out = []
+        self.ops.append(op)
+        kind = op[0]
+        try:
+            if kind == 'store':
+                size = op[1]
+                if self.hot.has_capacity_for(size) and self.hot.current_capacity - size >= 0:
+                    self.k += 1
+                    o = TierObs(f"o{self.k}", size)
+                    left = size
+                    while left > 0:      # stream it in at no more than the hot tier's ingest rate
+                        chunk = min(left, int(self.hot.max_ingest_data_rate))
+                        self.hot.process_incoming_data_stream(chunk, self.env.now)
+                        left -= chunk
+                    self.hot.observations['stored'].append(o)
+                    self.where[o.name] = 'hot'
+                    self.objs[o.name] = o
+                    self.data += size
+                    self.count('stored')
+                    if self.move is not None:
+                        self.last = (self.last[0] - size, self.last[1])
+            elif kind in ('h2c', 'c2h') and self.move is None:
+                src, dst = (self.hot, self.cold) if kind == 'h2c' else (self.cold, self.hot)
+                if src.observations['stored']:
+                    o = src.observations['stored'][-1]
+                    before = (self.hot.current_capacity, self.cold.current_capacity, self.names(self.hot), self.names(self.cold))
+                    room = dst.current_capacity >= o.total_data_size
+                    gen = self.buf.move_hot_to_cold(0) if kind == 'h2c' else self.buf.move_cold_to_hot(0)
+                    proc = self.env.process(gen)
+                    self._settle()
+                    if not proc.is_alive and proc.value is False:
+                        self.count('move_refused')
+                        after = (self.hot.current_capacity, self.cold.current_capacity, self.names(self.hot), self.names(self.cold))
+                        if after != before or self.hot.observations['transfer'] is not None or self.cold.observations['transfer'] is not None:
+                            out.append(O.V('C18', 'refusal_changed_state', f"refused {kind} of {o.name}: {before} -> {after}, transfer slots {self.hot.observations['transfer']}/{self.cold.observations['transfer']}"))
+                        if room:
+                            out.append(O.V('C18', 'refused_with_room', f"{kind} of {o.name} ({o.total_data_size}) refused although the destination has {dst.current_capacity} free"))
+                    else:
+                        if not room:
+                            out.append(O.V('C18', 'accepted_without_room', f"{kind} of {o.name} ({o.total_data_size}) started although the destination has only {before[1] if kind == 'h2c' else before[0]} free"))
+                        self.move = {'dir': kind, 'name': o.name, 'size': o.total_data_size, 'left': o.total_data_size,
+                                     'steps': 0, 'proc': proc}
+                        self.count('move_started_' + kind)
+                        if o.total_data_size % self.rate:
+                            self.count('size_not_multiple_of_rate')
+            elif kind == 'step':
+                for _ in range(op[1]):
+                    self._settle()
+                    self.env.run(until=self.env.now + 1)
+                    self._settle()
+                    self.observe(out, op, advanced=True)
+                    if out:
+                        break
+                return out
+            self.observe(out, op)
+        except Exception as e:
+            from .trace import harness_frame_innermost, repo_frame
+            if harness_frame_innermost(e):
+                raise
+            out.append(O.V('C18', 'raised', f"{op}: {type(e).__name__}@{repo_frame(e)}: {e}"))
+            self.dead = True
+        return out
+
+
+def tier_history_strategy():
+    op = st.one_of(st.tuples(st.just('store'), st.integers(1, 40)), st.just(('h2c',)), st.just(('c2h',)),
+                   st.tuples(st.just('step'), st.integers(1, 6)), st.tuples(st.just('step'), st.integers(1, 6))).map(list)
+    return st.tuples(st.integers(5, 100), st.integers(5, 100), st.integers(1, 12), st.integers(1, 12),
+                     st.lists(op, min_size=2, max_size=30)).map(list)
+
+
+def run_tier_history(case):
+    import contextlib
+    import io
+    hc, cc, hr, cr, ops = case
+    m = TierModel(hc, cc, hr, cr)
+    out = []
+    with contextlib.redirect_stdout(io.StringIO()):
+        for op in ops:
+            if m.dead or out:
+                break
+            out += m.apply(op)
+        # let a move in flight finish so that its end state is judged
+        guard = 0
+        while m.move is not None and not m.dead and not out and guard < 200:
+            out += m.apply(['step', 1])
+            guard += 1
+    return m, out
+
+
+class C18:
+    prop = 'C18'
+    cases = {'quick': 4000, 'thorough': 60000}
+    technique = "model-based property testing: generated tier-operation histories on a real Buffer + exhaustive grid of single moves and round trips"
+    rule = ("histories [store size | move hot->cold | move cold->hot | step k] on a real Buffer with generated capacities and both rate "
+            "orderings, one move at a time; thorough additionally enumerates the grid sizes 1..24 x hot rate 1..6 x cold rate 1..6 x "
+            "{hot->cold, round trip} x {room, no room}; non-trivial = history with a started move where hot rate < cold rate or the size is "
+            "not a multiple of the rate, or with a refused move; distinct = distinct canonical history JSON")
+    level_text = ("exploration (single-move grid exhaustive in thorough): after every step hot free + cold free + stored data is constant and "
+                  "what leaves one tier enters the other; each step moves exactly min(hot rate, cold rate, remaining); the move takes "
+                  "ceil(size/min rate) transfer steps; afterwards the observation is stored in exactly the destination, both transfer slots "
+                  "are empty; a move without room returns False and changes nothing")
+    assumptions = ["observations are placed in the hot tier with the same two statements Buffer.ingest_data_stream uses "
+                   "(process_incoming_data_stream + append to 'stored'); Buffer.run's tiering *policy* is not exercised here (see KF1)"]
+
+    def body(self, case, state):
+        state.evaluations += 1
+        m, out = run_tier_history(case)
+        for k, v in m.classes.items():
+            state.count(k, v)
+        hr, cr = case[2], case[3]
+        started = m.classes.get('move_started_h2c', 0) + m.classes.get('move_started_c2h', 0)
+        if hr < cr and started:
+            state.count('moves_with_hot_slower')
+        if (started and (hr < cr or m.classes.get('size_not_multiple_of_rate'))) or m.classes.get('move_refused'):
+            state.nontrivial.add(case_hash(case))
+            state.sample({'hot_cap': case[0], 'cold_cap': case[1], 'hot_rate': hr, 'cold_rate': cr, 'ops': m.ops[:20],
+                          'end': {'hot_free': m.hot.current_capacity, 'cold_free': m.cold.current_capacity,
+                                  'hot_stored': m.names(m.hot), 'cold_stored': m.names(m.cold)}})
+        for v in out:
+            v['sig'] = v['part']
+        return state.split_known(out)
+
+    def replay_case(self, case, state):
+        return self.body(case, state)
+
+    def run_shard(self, state, tier, seed, shard, nshards, cases=None):
+        run_given(state, tier_history_strategy(), self.body, max(1, (cases or self.cases[tier]) // nshards),
+                  shard_seed(seed, self.prop, shard))
+        if state.failures:
+            return
+        sizes = range(1, 25) if tier == 'thorough' else (1, 2, 5, 6, 7, 12)
+        rates = range(1, 7) if tier == 'thorough' else (1, 2, 5)
+        n = 0
+        for i, (size, hr, cr, shape, room) in enumerate(itertools.product(sizes, rates, rates, ('h2c', 'round'), (True, False))):
+            if i % nshards != shard:
+                continue
+            n += 1
+            hot_cap = size + 3
+            cold_cap = size + 2 if room else max(1, size - 1)
+            ops = [['store', size], ['h2c'], ['step', size + 2]]
+            if shape == 'round':
+                ops += [['c2h'], ['step', size + 2]]
+            case = [hot_cap, cold_cap, hr, cr, ops]
+            bad = self.body(case, state)
+            if bad:
+                state.failures.append((case, bad))
+                break
+        state.extra['grid_cases'] = n
+        if tier == 'thorough':
+            state.extra['exhaustive_part'] = "sizes 1..24 x hot rate 1..6 x cold rate 1..6 x {hot->cold, round trip} x {room, no room}"
+
+
+register(C18)
